@@ -330,3 +330,56 @@ Example normable_example :
   let s := SProd (PWArr [1; 3]) PInf [l1; SProd (PWConst (/ 2)) (PFin 3) [l3; l1]] in
   normable wit_quirks s (ENode [ELeaf [1; 2]; ENode [ELeaf [0; 5]; ELeaf [1]]]).
 Proof. exact normable_example_proof. Qed.
+
+(* ================= complex spaces of any nesting, elements as (re, im) trees ================= *)
+(* [csp_inner] mirrors ProductSpace{Const,Array}Weighting.inner on complex components: the component
+   inner products are gathered as x1i.inner(x2i) (this operand order) and combined with real weights. *)
+
+(* one node: <x, y> = c * sum_i <x_i, y_i>_i resp. sum_i w_i <x_i, y_i>_i, re and im separately *)
+Theorem complex_pspace_inner_component_sum : forall q w c cs (xrs xis yrs yis : list (@elem R)) (zs : list (R * R)),
+  collect4 (csp_inner q) (c :: cs) xrs xis yrs yis = Ok zs ->
+  csp_inner q (SProd w (PFin 2) (c :: cs)) (ENode xrs) (ENode xis) (ENode yrs) (ENode yis)
+  = Ok (match w with
+        | PWConst k => (k * sumf (map fst zs), k * sumf (map snd zs))
+        | PWArr a => (dot (map fst zs) a, dot (map snd zs) a)
+        end).
+Proof. exact csp_inner_node. Qed.
+Print Assumptions complex_pspace_inner_component_sum.
+
+(* every space tree: (Re, Im) <x, y> = (<xr,yr> + <xi,yi>, <xi,yr> - <xr,yi>) in terms of the real
+   tree inner product -- whenever those four exist *)
+Theorem complex_pspace_inner_decomposition : forall q (s : @space R) xr xi yr yi a b c d,
+  sp_inner q s xr yr = Ok a -> sp_inner q s xi yi = Ok b ->
+  sp_inner q s xi yr = Ok c -> sp_inner q s xr yi = Ok d ->
+  csp_inner q s xr xi yr yi = Ok (a + b, c - d).
+Proof. exact csp_inner_decomp. Qed.
+Print Assumptions complex_pspace_inner_decomposition.
+
+(* all exponent-2 trees (any depth/arity, const / array / default weights at every level):
+   conjugate symmetry *)
+Theorem complex_pspace_inner_conjugate_symmetric : forall q (s : @space R) (x0 : @elem R), hshape s x0 ->
+  forall xr xi yr yi, same_shape x0 xr -> same_shape x0 xi -> same_shape x0 yr -> same_shape x0 yi ->
+  exists re im, csp_inner q s xr xi yr yi = Ok (re, im) /\ csp_inner q s yr yi xr xi = Ok (re, - im).
+Proof. exact csp_inner_conj_sym. Qed.
+Print Assumptions complex_pspace_inner_conjugate_symmetric.
+
+(* ... linearity in the FIRST argument with a complex scalar a = ar + i ai:
+   <a x + z, y> = a <x, y> + <z, y>  ([ce_re], [ce_im]: re and im trees of a x + z) *)
+Theorem complex_pspace_inner_linear_first : forall q (s : @space R) (x0 : @elem R), hshape s x0 ->
+  forall ar ai xr xi zr zi yr yi,
+  same_shape x0 xr -> same_shape x0 xi -> same_shape x0 zr -> same_shape x0 zi ->
+  same_shape x0 yr -> same_shape x0 yi ->
+  exists re im zre zim,
+    csp_inner q s xr xi yr yi = Ok (re, im) /\ csp_inner q s zr zi yr yi = Ok (zre, zim) /\
+    csp_inner q s (ce_re ar ai xr xi zr) (ce_im ar ai xr xi zi) yr yi
+      = Ok (ar * re - ai * im + zre, ar * im + ai * re + zim).
+Proof. exact csp_inner_linear_first. Qed.
+Print Assumptions complex_pspace_inner_linear_first.
+
+(* ... <x, x> is real, >= 0, and 0 only for x = 0 *)
+Theorem complex_pspace_inner_positive : forall q (s : @space R) (x0 : @elem R), hshape s x0 ->
+  forall xr xi, same_shape x0 xr -> same_shape x0 xi ->
+  exists re, csp_inner q s xr xi xr xi = Ok (re, 0) /\ 0 <= re /\
+    (re = 0 -> Forall (fun t => t = 0) (flat xr) /\ Forall (fun t => t = 0) (flat xi)).
+Proof. exact csp_inner_positive. Qed.
+Print Assumptions complex_pspace_inner_positive.
